@@ -261,6 +261,16 @@ func runC15(r *R) {
 		passes, inst = 1, 2+w.Draw(3)
 		r.Note("long-weight-ring")
 	}
+	// one run in six with several scenarios: the second scenario is made of the first one's requests (two scenarios
+	// sharing their steps: every sample still names the scenario that was invoked). Such runs have no faults and no cancel,
+	// so that the number of invocations per scenario is known.
+	alias := !longRing && nsc >= 2 && w.Draw(6) == 0
+	if alias {
+		nsc = 2
+		scs = scs[:2]
+		scs[1].Lines, scs[1].Steps = scs[0].Lines, scs[0].Steps
+		r.Note("two-scenarios-sharing-their-requests")
+	}
 	g := 0
 	for _, sc := range scs {
 		g = gcd(g, sc.Weight)
@@ -288,7 +298,7 @@ func runC15(r *R) {
 		r.Note("templater:" + listTempl)
 	}
 	// one run in three: two json sources that both keep their rows under `items`, each walked with [next] by the plain step
-	twin := w.Draw(3) == 0
+	twin := w.Draw(3) == 0 && !alias
 	if twin {
 		r.Note("two-sources-with-equally-named-arrays")
 	}
@@ -303,7 +313,7 @@ func runC15(r *R) {
 	lat := []time.Duration{100 * time.Microsecond, 2 * time.Millisecond, 15 * time.Millisecond}[w.Draw(3)]
 	// faults: per request arrival index
 	nfaults := 0
-	if f.Biased(3, 1, 2) > 0 {
+	if f.Biased(3, 1, 2) > 0 && !alias {
 		nfaults = 1 + f.Draw(2)
 	}
 	faultAt := map[int]string{}
@@ -401,7 +411,7 @@ func runC15(r *R) {
 	// one run in six is cancelled by the caller at a drawn instant: an invocation in progress then still runs its
 	// remaining steps in order, with its pauses, and reports one sample per step; only the number of invocations is open
 	cancelAt := time.Duration(0)
-	if !longRing && w.Draw(6) == 0 {
+	if !longRing && w.Draw(6) == 0 && !alias {
 		cancelAt = time.Duration(1+w.Draw(1500)) * time.Millisecond
 	}
 	// gun diagnostics (one run in four): httptrace timings and dumps, the answer log, debug-level logging - none of
@@ -711,8 +721,14 @@ func runC15(r *R) {
 		}
 	}
 	// weights: whole passes over the ring
+	if alias && !cancelled {
+		if want := (perPass[0] + perPass[1]) * passes; counts[0] != want {
+			r.Fail("weights", "two scenarios sharing their requests were invoked %d times in %d passes over the ring, want %d (weights %v)", counts[0], passes, want, weightsOf(scs))
+			return
+		}
+	}
 	for i, c := range counts {
-		if cancelled {
+		if cancelled || alias {
 			break // (whole rings are delivered only by a run that is not cut)
 		}
 		if c != perPass[i]*passes {
@@ -747,6 +763,22 @@ func runC15(r *R) {
 			r.Fail("next-rows", "scenario %s sent uids that are not rows of the data source: %v", scs[si].Name, cnt)
 			return
 		}
+	}
+	if alias {
+		// what the target saw as steps of s0 were steps of s0 and of s1 in the proportion of their invocations: the
+		// samples name the scenario that was invoked
+		split := func(m map[string]int) {
+			for n, t := range m {
+				if !strings.HasPrefix(n, "s0.") {
+					continue
+				}
+				share0 := t * perPass[0] / (perPass[0] + perPass[1])
+				m[n] = share0
+				m["s1."+strings.TrimPrefix(n, "s0.")] = t - share0
+			}
+		}
+		split(executed)
+		split(failedSteps)
 	}
 	// samples: one per executed step, tagged <scenario>.<step name>; the failed step carries the failure
 	var names []string
